@@ -58,6 +58,11 @@ namespace {
       std::ostream os{ &buf };
       ipr::Printer pp{ lex, os };
       pp.indent(initial_indent);
+      // the client configures its stream AFTER handing it to the printer (none of this affects how integers are written)
+      os.setf(std::ios::boolalpha | std::ios::showpoint | std::ios::uppercase | std::ios::unitbuf);
+      os.unsetf(std::ios::skipws);
+      os.fill('*');
+      os.precision(3);
       const auto flags = os.flags();
       const auto fill = os.fill();
       const auto width = os.width();
@@ -450,7 +455,7 @@ namespace {
                auto& G = *unit.global_region();
                auto* located = lex.make_break();
                located->src_locus = ipr::Source_location{ ipr::Line_number{ 64 }, ipr::Column_number{ 100 }, ipr::File_index{ 8 } };
-               auto name = [&](int i) -> const ipr::Name& { return lex.get_identifier(std::u8string(u8"m") + char8_t('0' + i)); };
+               auto name = [&](int i) -> const ipr::Name& { auto& n = lex.get_identifier(i % 2 ? std::u8string(u8"member-") + char8_t('0' + i) : std::u8string(u8"m") + char8_t('0' + i)); (void) lex.get_string(std::u8string(u8"q") + char8_t('0' + i)); return n; };
                auto lit = [&](const char8_t* w) -> const ipr::Expr& { return *lex.make_literal(lex.int_type(), w); };
                const ipr::Type* types[] = { &lex.int_type(), &lex.get_pointer(lex.get_qualified(lex.const_qualifier(), lex.char_type())), &lex.get_reference(lex.double_type()), &lex.get_array(lex.int_type(), lit(u8"4")) };
                auto fill_udt = [&](auto* u) {
@@ -467,7 +472,9 @@ namespace {
                   return b;
                };
                const ipr::Decl* d = nullptr;
-               auto& nm = lex.get_identifier(u8"subject");
+               // spellings that exactly fill their storage granule (8 and 24 bytes), each with another word interned right behind it
+               auto& nm = lex.get_identifier(flavour % 2 ? u8"subject8" : flavour == 2 ? u8"a-name-of-24-characters!" : u8"subject");
+               (void) lex.get_identifier(u8"zz");
                switch (kind) {
                case 0: { auto* v = G.declare_var(nm, *types[flavour]); if (members) v->init = &lit(u8"42"); if (members > 1) v->decl_data.spec = lex.static_specifier() | lex.constexpr_specifier(); d = v; break; }
                case 1: { auto* v = G.declare_field(nm, *types[flavour]); if (members) v->init = &lit(u8"42"); d = v; break; }
